@@ -248,6 +248,80 @@ fn bls_large_signer_sets(report: &Report, cli: &Cli) {
     report.set_extra("bls_signer_set_sizes", json!(sizes));
 }
 
+/// Messages that differ only by what an encoding could drop: trailing / leading zero bytes, lengths
+/// around the 32 / 64 / 128-byte block and digest sizes, a message that *is* the SHA-512 / SHA-256
+/// digest of another one, the same integer in two widths.
+fn shape_messages() -> Vec<Vec<u8>> {
+    use sha2::Digest;
+    let long = vec![0x5Au8; 1024];
+    let mut v: Vec<Vec<u8>> = vec![vec![], vec![0], vec![0, 0], b"a".to_vec(), b"a\0".to_vec(), b"a\0\0".to_vec(), b"\0a".to_vec()];
+    for n in [31usize, 32, 33, 63, 64, 65, 127, 128, 129] {
+        v.push(vec![0; n]);
+        v.push(vec![0x41; n]);
+    }
+    v.push(sha2::Sha512::digest(&long).to_vec());
+    v.push(sha2::Sha256::digest(&long).to_vec());
+    v.push(long);
+    v.push(5u16.to_le_bytes().to_vec());
+    v.push(5u64.to_le_bytes().to_vec());
+    v.push(5u64.to_be_bytes().to_vec());
+    v
+}
+
+/// Every ordered pair of distinct shape messages: a signature on one does not verify for the other; the
+/// aggregate of (key 0, m1) and (key 1, m2) verifies for exactly that assignment (plain and hybrid), not
+/// for the swapped one; VRF proofs and outputs likewise.
+fn message_shapes(report: &Report, cli: &Cli) {
+    let ms = shape_messages();
+    let sks: Vec<agg::SecretKey<P>> = (0..2).map(|i| agg::SecretKey::<P>::generate(&mut rng(cli.seed, 150 + i))).collect();
+    let pks: Vec<agg::PublicKey<P>> = sks.iter().map(agg::PublicKey::from_secret).collect();
+    let sigs: Vec<Vec<agg::Signature<P>>> = sks.iter().map(|sk| ms.iter().map(|m| sk.sign(m)).collect()).collect();
+    let kp = ecvrf::Keypair::generate(&mut rng(cli.seed, 350));
+    let proofs: Vec<ecvrf::Proof> = ms.iter().map(|m| kp.prove(m)).collect();
+    let pairs: Vec<(usize, usize)> = (0..ms.len()).flat_map(|a| (0..ms.len()).map(move |b| (a, b))).filter(|(a, b)| a != b).collect();
+    pairs.par_iter().for_each(|&(a, b)| {
+        case(report, json!({"message_shapes": {"m1": mc_core::hex(&ms[a][..ms[a].len().min(70)]), "len1": ms[a].len(), "m2": mc_core::hex(&ms[b][..ms[b].len().min(70)]), "len2": ms[b].len()}}), || {
+            report.trace(1);
+            if pks[0].verify(&ms[b], sigs[0][a]) {
+                return fail("signature-verifies-for-other-message", json!({}));
+            }
+            let agg_sig = sigs[0][a].aggregate(sigs[1][b]);
+            let right: Vec<(&[u8], agg::PublicKey<P>)> = vec![(&ms[a][..], pks[0]), (&ms[b][..], pks[1])];
+            let swapped: Vec<(&[u8], agg::PublicKey<P>)> = vec![(&ms[b][..], pks[0]), (&ms[a][..], pks[1])];
+            if !agg::verify_aggregate_sig::<P>(&right, agg_sig) {
+                return fail("valid-aggregate-rejected", json!({"variant": "plain"}));
+            }
+            if agg::verify_aggregate_sig::<P>(&swapped, agg_sig) {
+                return fail("aggregate-verifies-for-other-multiset", json!({"variant": "plain"}));
+            }
+            let (k0, k1) = ([pks[0]], [pks[1]]);
+            let hr: Vec<(&[u8], &[agg::PublicKey<P>])> = vec![(&ms[a][..], &k0[..]), (&ms[b][..], &k1[..])];
+            let hs: Vec<(&[u8], &[agg::PublicKey<P>])> = vec![(&ms[b][..], &k0[..]), (&ms[a][..], &k1[..])];
+            if !agg::verify_aggregate_sig_hybrid::<P>(&hr, agg_sig) {
+                return fail("valid-aggregate-rejected", json!({"variant": "hybrid"}));
+            }
+            if agg::verify_aggregate_sig_hybrid::<P>(&hs, agg_sig) {
+                return fail("aggregate-verifies-for-other-multiset", json!({"variant": "hybrid"}));
+            }
+            // same key on both messages
+            let one_key = sigs[0][a].aggregate(sigs[0][b]);
+            let both: Vec<(&[u8], agg::PublicKey<P>)> = vec![(&ms[a][..], pks[0]), (&ms[b][..], pks[0])];
+            if !agg::verify_aggregate_sig::<P>(&both, one_key) {
+                return fail("valid-aggregate-rejected", json!({"variant": "plain, one key on two messages"}));
+            }
+            // VRF
+            if kp.public.verify(&proofs[a], &ms[b]) {
+                return fail("vrf-proof-verifies-for-other-input", json!({}));
+            }
+            if proofs[a].to_hash() == proofs[b].to_hash() {
+                return fail("vrf-outputs-collide", json!({}));
+            }
+            Ok(())
+        });
+    });
+    report.set_extra("message_shape_pairs", json!(pairs.len()));
+}
+
 fn vrf(report: &Report, cli: &Cli) {
     let kps: Vec<ecvrf::Keypair> = (0..3).map(|i| ecvrf::Keypair::generate(&mut rng(cli.seed, 300 + i))).collect();
     let msgs = messages();
@@ -515,6 +589,7 @@ pub fn run(cli: &Cli) -> ! {
     bls(&report, cli);
     ed25519_possession(&report, cli);
     bls_large_signer_sets(&report, cli);
+    message_shapes(&report, cli);
     vrf(&report, cli);
     ps(&report, cli);
     let n = report.evaluations.load(std::sync::atomic::Ordering::Relaxed);
